@@ -81,7 +81,12 @@ fn main() {
         None => {
             let n = extra_u64("histories").unwrap_or_else(|| cli.scaled(cli.tier.pick(32, 1024)));
             let faults = cli.tier.pick(2, 3);
-            ((0..n).map(|i| history::generate(cli.seed, i, 15, faults)).collect(), false)
+            let mut hs: Vec<history::History> = (0..n).map(|i| history::generate(cli.seed, i, 15, faults)).collect();
+            // one (thorough: four) long-lived adapter that goes through six watch errors
+            for k in 0..cli.tier.pick(1u64, 4) {
+                hs.push(history::generate_long_life(cli.seed, n + k));
+            }
+            (hs, false)
         }
     };
     let concurrency = extra_u64("concurrency").unwrap_or(cli.tier.pick(64, 128)).max(1) as usize;
